@@ -483,8 +483,8 @@ Definition m_map (c : call) : res :=
   end.
 Definition m_mapcar (c : call) : res :=
   match c_seq c, c_nseq c, c_seq2 c with
-  | SList _, 1%nat, _ => RSeq (map_vals c)
-  | SList _, _, SList _ => RSeq (map_vals c)
+  | (SList _ | SNil), 1%nat, _ => RSeq (map_vals c)                 (* nil is the empty list (since 99845b4) *)
+  | (SList _ | SNil), _, (SList _ | SNil) => RSeq (map_vals c)
   | _, _, _ => RErr EType
   end.
 
